@@ -181,7 +181,10 @@ func copyTree(src, dst string) {
 func applyOp(content []byte, op pendingOp, appendMode bool, upto int) []byte {
 	switch op.kind {
 	case "truncate":
-		return content[:0:0]
+		if int(op.off) < len(content) {
+			return append([]byte{}, content[:op.off]...)
+		}
+		return append([]byte{}, content...)
 	case "write":
 		data := op.data
 		if upto >= 0 && upto < len(data) {
@@ -364,10 +367,7 @@ func (w *simFile) Truncate(size int64) error {
 	}
 	err := w.f.Truncate(size)
 	if err == nil {
-		if size != 0 {
-			panic("simFile: truncate to non-zero size is not modelled")
-		}
-		w.sf.pending = append(w.sf.pending, pendingOp{kind: "truncate"})
+		w.sf.pending = append(w.sf.pending, pendingOp{kind: "truncate", off: size})
 	}
 	return err
 }
